@@ -62,7 +62,7 @@ theorem tableFrom_append (maps : List MapAdd) (pre rest : List (Nat × MapAdd)) 
 
 /-- what the flush loop computes for one sample -/
 def flushOne (pm maps : List MapAdd) (u : USample) : Nat × OutSample :=
-  (u.th, { t := u.t, weight := u.weight, cpu := u.cpu, synth := u.synth,
+  (u.th, { t := u.t, weight := u.weight, cpu := u.cpu, kind := u.kind,
            frames := depthLimit depthN (convertStack maps pm u.stack) u.stack.length })
 
 theorem flushBuffer_spec (pm maps : List MapAdd) (q : List (Nat × MapAdd)) (us : List USample)
